@@ -241,8 +241,11 @@ Definition ps_ack (t : tcb) (h : header) : tcb * option psr :=
     if is_fin_acked t2 then (t2, Some PFinalizeClose)
     else match r with PSuccess => (t2, None) | other => (t2, Some other) end
   | TimeWait =>
-    let a := hb_wnd (hb_ack (hb t (snd_nxt t)) (wadd (h_seq h) 1)) (rcv_wnd t) in
-    (set_time_wait (enqueue t a) (Some MSL2), None)
+    (* only a retransmitted FIN is acknowledged and restarts the 2*MSL wait *)
+    if c_fin (h_ctl h) then
+      let a := hb_wnd (hb_ack (hb t (snd_nxt t)) (wadd (h_seq h) 1)) (rcv_wnd t) in
+      (set_time_wait (enqueue t a) (Some MSL2), None)
+    else (t, None)
   end.
 
 (* stage 3: RST bit *)
